@@ -35,6 +35,10 @@ pub enum ROp {
     VByteBe,
     VByteLe,
     IoRead(u16),
+    /// std::io::Read::read_exact
+    IoReadExact(u16),
+    /// std::io::Read::read_vectored into three adjacent slices of these lengths (one call)
+    IoReadVec(u16, u16, u16),
     SetPos(u64),
     /// copy n bits into a fresh BufBitWriter over `wd`-bit words that already holds
     /// `prefill` bits; `from` selects dst.copy_from(src) instead of src.copy_to(dst)
@@ -69,6 +73,8 @@ impl ROp {
             ROp::MinBin(_) => "minimal_binary",
             ROp::VByteBe | ROp::VByteLe => "vbyte",
             ROp::IoRead(_) => "io_read",
+            ROp::IoReadExact(_) => "io_read_exact",
+            ROp::IoReadVec(..) => "io_read_vectored",
             ROp::SetPos(_) => "set_bit_pos",
             ROp::Copy { from: false, .. } => "copy_to",
             ROp::Copy { from: true, .. } => "copy_from",
@@ -233,6 +239,34 @@ impl<E: Endianness + 'static, R: CodesRead<E> + Debug + 'static> Holder<E, R> {
                     let mut ab = crate::util::AlignedBytes::new(*len as usize, 0xEE);
                     match f(r, ab.as_mut_slice()) {
                         Ok(c) => RObs::Bytes(ab.as_slice().to_vec(), c),
+                        Err(_) => RObs::Err,
+                    }
+                }
+            },
+            ROp::IoReadExact(len) => match self.caps.io_read {
+                None => RObs::Unsupported,
+                Some(f) => {
+                    let mut ab = crate::util::AlignedBytes::new(*len as usize, 0xEE);
+                    IO_MODE.with(|m| m.set(1));
+                    let r = f(r, ab.as_mut_slice());
+                    IO_MODE.with(|m| m.set(0));
+                    match r {
+                        Ok(c) => RObs::Bytes(ab.as_slice().to_vec(), c),
+                        Err(_) => RObs::Err,
+                    }
+                }
+            },
+            ROp::IoReadVec(a, b, c) => match self.caps.io_read {
+                None => RObs::Unsupported,
+                Some(f) => {
+                    let total = (*a + *b + *c) as usize;
+                    let mut ab = crate::util::AlignedBytes::new(total, 0xEE);
+                    IO_MODE.with(|m| m.set(2));
+                    IO_SPLIT.with(|s| s.set((*a as usize, (*a + *b) as usize)));
+                    let r = f(r, ab.as_mut_slice());
+                    IO_MODE.with(|m| m.set(0));
+                    match r {
+                        Ok(n) => RObs::Bytes(ab.as_slice().to_vec(), n),
                         Err(_) => RObs::Err,
                     }
                 }
@@ -474,7 +508,7 @@ macro_rules! full_caps {
     ($E:ty, $R:ty, $copy:expr, $disp:expr) => {
         $crate::rd::Caps::<$R> {
             clone: Some(|r: &$R| r.clone()),
-            io_read: Some(|r: &mut $R, b: &mut [u8]| std::io::Read::read(r, b)),
+            io_read: Some(|r: &mut $R, b: &mut [u8]| $crate::rd::io_read_mode(r, b)),
             bit_pos: Some(|r: &mut $R| BitSeek::bit_pos(r).map_err(|e| format!("{e}"))),
             set_bit_pos: Some(|r: &mut $R, p: u64| BitSeek::set_bit_pos(r, p).map_err(|e| format!("{e}"))),
             copy: if $copy { Some($crate::copy_fn!($E, $R)) } else { None },
@@ -565,6 +599,28 @@ impl std::io::Seek for Choppy {
     }
 }
 
+thread_local! {
+    /// which provided method of std::io::Read the io_read capability calls: 0 = read, 1 = read_exact,
+    /// 2 = read_vectored (split points in IO_SPLIT)
+    static IO_MODE: std::cell::Cell<u8> = const { std::cell::Cell::new(0) };
+    static IO_SPLIT: std::cell::Cell<(usize, usize)> = const { std::cell::Cell::new((0, 0)) };
+}
+
+/// The io::Read call made on behalf of IoRead / IoReadExact / IoReadVec (selected by IO_MODE).
+pub fn io_read_mode<R: std::io::Read>(r: &mut R, b: &mut [u8]) -> std::io::Result<usize> {
+    match IO_MODE.with(|m| m.get()) {
+        1 => r.read_exact(b).map(|_| b.len()),
+        2 => {
+            let (k1, k2) = IO_SPLIT.with(|s| s.get());
+            let (s1, rest) = b.split_at_mut(k1);
+            let (s2, s3) = rest.split_at_mut(k2 - k1);
+            let mut v = [std::io::IoSliceMut::new(s1), std::io::IoSliceMut::new(s2), std::io::IoSliceMut::new(s3)];
+            r.read_vectored(&mut v)
+        }
+        _ => r.read(b),
+    }
+}
+
 pub const BACKENDS: [&str; 7] = ["memzx", "memstrict", "vec", "slice", "cursor", "bufreader", "choppy"];
 pub const KINDS: [&str; 5] = ["buf8", "buf16", "buf32", "buf64", "unbuf"];
 pub const WRAPPERS: [&str; 3] = ["", "count", "dbg"];
@@ -629,6 +685,20 @@ macro_rules! mk_plain {
                     disp: None,
                 };
                 mk::<$E, RC>(CountBitReader::new(r), caps, $info)
+            }
+            "countp" => {
+                // the counting wrapper with its PRINT parameter on (traces to stderr)
+                type RC = CountBitReader<$E, R0, true>;
+                let caps = Caps::<RC> {
+                    clone: Some(|r: &RC| r.clone()),
+                    io_read: None,
+                    bit_pos: Some(|r: &mut RC| BitSeek::bit_pos(r).map_err(|e| format!("{e}"))),
+                    set_bit_pos: Some(|r: &mut RC, p: u64| BitSeek::set_bit_pos(r, p).map_err(|e| format!("{e}"))),
+                    copy: Some($crate::copy_fn_min!($E, RC)),
+                    counter: Some(|r: &RC| r.bits_read as u64),
+                    disp: None,
+                };
+                mk::<$E, RC>(CountBitReader::<$E, _, true>::new(r), caps, $info)
             }
             "dbg" => {
                 type RD = DbgBitReader<$E, R0>;
@@ -733,7 +803,7 @@ fn make_noclone(e: End, kind: &'static str, backend: &'static str, shown: &'stat
             type R0 = $R0;
             let caps = Caps::<R0> {
                 clone: None,
-                io_read: Some(|r: &mut R0, b: &mut [u8]| std::io::Read::read(r, b)),
+                io_read: Some(|r: &mut R0, b: &mut [u8]| io_read_mode(r, b)),
                 bit_pos: Some(|r: &mut R0| BitSeek::bit_pos(r).map_err(|e| format!("{e}"))),
                 set_bit_pos: Some(|r: &mut R0, p: u64| BitSeek::set_bit_pos(r, p).map_err(|e| format!("{e}"))),
                 copy: None,
